@@ -165,7 +165,7 @@ Spec == Init /\ [][Next]_vars
 
 AtEnd == l = NRec + 1
 Brief == IF AtEnd THEN [l |-> l, bad |-> bad, obs |-> obs] ELSE [l |-> l]
-Holds(p) == AtEnd => \A b \in bad : b[1] # p
+Holds(p) == AtEnd => NoneFor(bad, p)
 C12 == Holds("C12")
 C04 == Holds("C04")
 (* reporting hook for the driver: number of TimeSensitive packets first sent after the step
